@@ -69,6 +69,15 @@ def kf_consts(**kw):
     return c
 
 
+def kb_consts(**kw):
+    c = {'Threads': '<-ThreadsDef', 'MThreads': '<-ThreadsDef', 'Locs': '<-LocsDef', 'InitVal': '<-InitValDef', 'AbsStep': '<-QStep', 'Ord': '<-OrdCode', 'Weak': False,
+         'NT': 2, 'K': 1, 'NSegsB': 3, 'IdxBits': 16, 'Progs': '<-ProgLost', 'SetupOps': 0, 'Committed': True, 'HeadTagBump': True, 'FullChecksTag': True, 'PopMovesTail': True}
+    c.update(kw)
+    return c
+
+
+KB_ACTIONS = ['StartPush', 'b_ldt', 'b_ldh', 'f_rnd', 'f_ld', 'b_ldt2', 'b_cas', 'k_ld', 'k_ldt', 'k_ldh', 'k_bump', 'b_done', 'b_qf', 's_ld', 'b_tinc',
+              'StartPop', 'p_ldh', 'p_ldt', 'p_ldh2', 'p_tinc', 'p_cas', 'p_ldt2', 'p_hinc', 'QueueDtor']
 KF_ACTIONS = ['StartPush', 'u_acqt', 'f_rnd', 'f_ld', 'u_ldt', 'u_cas', 'c_ld', 'c_del', 'c_ldh', 'c_bump', 'u_done', 't_ldn', 't_ldt', 't_swing', 't_alloc', 't_link', 't_swing2',
               'StartPop', 'o_acqh', 'o_ldh', 'o_ldt', 'o_cas', 'o_ldt2', 'h_ldn', 'h_ldh', 'h_del', 'h_cas', 'Destroy', 'QueueDtor']
 INV_KF = ['Linearizable', 'Conservation', 'Ownership', 'ConservedAtEnd']
@@ -177,13 +186,35 @@ def run_models(ctx, pid):
             lambda: tlc_mc(ctx, 'kf_toggle_no_deleted_flag', 'KirschKfifo', kf_consts(MarkDeleted=False), invariants=INV_KF, view='mcview', workers=3, expect='violation'),
             lambda: tlc_mc(ctx, 'kf_toggle_no_head_tag_bump', 'KirschKfifo', kf_consts(HeadTagBump=False), invariants=INV_KF, view='mcview', workers=3, expect='violation'),
         ]
-        if pid == 'C06' or not q:
+        if not q:
             jobs += [lambda: tlc_mc(ctx, 'kf_k2_lost', 'KirschKfifo', kf_consts(K=2), invariants=INV_KF, view='mcview', workers=6, tmo=900)]
         if not q:
             jobs += [lambda: tlc_mc(ctx, 'kf_k2_mix', 'KirschKfifo', kf_consts(K=2, Progs='<-ProgMix'), invariants=INV_KF, view='mcview', workers=6, tmo=1500),
                      lambda: tlc_mc(ctx, 'kf_k2_drain', 'KirschKfifo', kf_consts(K=2, Progs='<-ProgDrain'), invariants=INV_KF, view='mcview', workers=6, tmo=1500),
                      lambda: tlc_mc(ctx, 'kf_k1_full', 'KirschKfifo', kf_consts(Progs='<-ProgFull', NSegs=4), invariants=INV_KF, view='mcview', workers=6, tmo=1500),
                      lambda: tlc_mc(ctx, 'kf_k1_3t', 'KirschKfifo', kf_consts(NT=3, Progs='<-Prog3', NSegs=4), invariants=INV_KF, view='mcview', workers=12, tmo=3000, heap='24g')]
+        # kirsch_bounded_kfifo_queue: ring of segments with tagged indices
+        jobs += [
+            lambda: tlc_mc(ctx, 'kb_k1s3_lost', 'KirschBounded', kb_consts(), invariants=INV_KF, view='mcview', workers=3),
+            lambda: tlc_mc(ctx, 'kb_k2s1_lost', 'KirschBounded', kb_consts(K=2, NSegsB=1), invariants=INV_KF, view='mcview', workers=4, must_cover=KB_ACTIONS),
+            lambda: tlc_mc(ctx, 'kb_k1s4_fill', 'KirschBounded', kb_consts(NSegsB=4, Progs='<-ProgFill'), invariants=INV_KF, view='mcview', workers=4),
+            lambda: tlc_mc(ctx, 'kb_toggle_no_committed', 'KirschBounded', kb_consts(Committed=False), invariants=INV_KF, view='mcview', workers=3, expect='violation'),
+            lambda: tlc_mc(ctx, 'kb_toggle_no_head_tag_bump', 'KirschBounded', kb_consts(HeadTagBump=False), invariants=INV_KF, view='mcview', workers=3, expect='violation'),
+        ]
+        if pid == 'C06':
+            # the known findings of the bounded queue are behaviours of the impl spec; their counterexamples are replayed on the real code (R)
+            def finding(name, consts, prog, preds):
+                r = tlc_mc(ctx, name, 'KirschBounded', consts, invariants=INV_KF, view='mcview', workers=3, expect='violation')
+                from props.queue_common import HCONSTS
+                replay_model_cex(ctx, name, r, 'queue_kirsch', prog, 'Queue_Hist', HCONSTS, known_preds=preds)
+            jobs += [lambda: finding('kb_finding_push_rollback', kb_consts(NSegsB=1), 'bkf1s1/-/P;;push1,push2,pop;pop,push3', ['C06_PushRollback', 'C06_HeadTagBump']),
+                     lambda: finding('kb_finding_head_tag', kb_consts(NSegsB=2), 'bkf1s2/-/P;;push1,push2,pop;pop,push3', ['C06_PushRollback', 'C06_HeadTagBump'])]
+        if not q:
+            jobs += [lambda: tlc_mc(ctx, 'kb_k2s2_lost', 'KirschBounded', kb_consts(K=2, NSegsB=2), invariants=INV_KF, view='mcview', workers=6, tmo=1500),
+                     lambda: tlc_mc(ctx, 'kb_k2s1_fill', 'KirschBounded', kb_consts(K=2, NSegsB=1, Progs='<-ProgFill'), invariants=INV_KF, view='mcview', workers=6, tmo=1500),
+                     lambda: tlc_mc(ctx, 'kb_k1s4_mix', 'KirschBounded', kb_consts(NSegsB=4, Progs='<-ProgMix'), invariants=INV_KF, view='mcview', workers=4),
+                     lambda: tlc_mc(ctx, 'kb_k3s2_lost', 'KirschBounded', kb_consts(K=3, NSegsB=2), invariants=INV_KF, view='mcview', workers=8, tmo=2400, heap='24g')]
+        ctx.note('mechanism "a pop that takes from the segment _tail points to advances _tail first" (PopMovesTail = FALSE) yields no counterexample within the bounds')
         ctx.note('mechanism "advance_head swings a tail_ that points to the head segment first" (TailFirst = FALSE) yields no counterexample: advance_head is only '
                  'reached with head = tail when tail_ has already moved on - not needed by any listed property')
     kinds = {'C04': [('fifo', 0, 1, 0)], 'C05': [('bounded', 2, 1, 0), ('nikbounded', 3, 1, 0)],
